@@ -1208,6 +1208,14 @@ func (nn *nonNeg) value(v ssa.Value, at ssa.Instruction, depth int) bool {
 	switch x := v.(type) {
 	case *ssa.Call:
 		cn := an.CallName(&x.Call)
+		// the length/count accessors of library types ((*bytes.Buffer).Len, (*strings.Builder).Len,
+		// (*list.List).Len, ...) return a count
+		if f := x.Call.StaticCallee(); f != nil && f.Pkg != nil && !an.IsModulePkg(f.Pkg.Pkg) && f.Signature.Recv() != nil && f.Signature.Params().Len() == 0 {
+			switch f.Name() {
+			case "Len", "Cap", "Size", "Buffered", "Available":
+				return true
+			}
+		}
 		switch cn {
 		case "builtin.len", "builtin.cap", "(reflect.Value).Len", "(reflect.Value).Cap", "(reflect.Type).NumIn", "(reflect.Type).NumOut", "(reflect.Type).NumField", "(reflect.Value).NumField", "utf8.RuneCountInString", "unicode/utf8.RuneCountInString", "strings.Count":
 			return true
